@@ -242,6 +242,8 @@ def r3(ctx, rep):
             bb = at.a[1][sel[0][0]][2]
             fproc = prog.impl_method("crate::query::Query", M + "Filter", "process")
             X = Tm("call", (fproc, Tm("proj", (at.a[0], "FilterAtom::Filter.expr")), Tm("param", (1, "state"))))
+            if bb.k == "if" and bb.a[0].k == "un" and bb.a[0].a[0] == "Not":
+                bb = Tm("if", (bb.a[0].a[1], bb.a[2], bb.a[1]), bb.n)         # if(!c ? a : b) is if(c ? b : a)
             ok = bb.k == "if" and bb.a[0] == Tm("proj", (at.a[0], "FilterAtom::Filter.not")) and bb.a[2] == X
     rep.check(ok, "C13-R3", "optional-parentheses", prog.loc_of(ap), "(e) with not=false evaluates exactly e", "a parenthesised expression is not evaluated as the expression itself")
     fc = prog.inherent_method(M + "FilterAtom", "filter")
@@ -252,6 +254,21 @@ def r3(ctx, rep):
               "a parenthesised group is not always built as Filter{expr, not} (`%s`): redundant parentheses change the negation flag" % str(ct)[:200])
     # numbers: Int vs Float decided by . e E only
     pn = "crate::parser::literal::parse_number"
+    if pn not in prog.bodies:
+        # found by what it does: the one function of the AST builder (text: &str) that builds both number literals
+        region, _ = prog.parser_region()
+        cands = []
+        for q in sorted(region):
+            if "::{closure#" in q or q not in prog.bodies or prog.is_expansion(q) or q.startswith(M):
+                continue
+            ins = prog.items.get(q, {}).get("inputs_s") or []
+            if len(ins) == 1 and "str" in ins[0]:
+                sm = ev.summary(q)
+                kinds = {x.a[1] for x in subterms(sm) if x.k == "adt" and x.a[0] == M + "Literal"}
+                if {"Int", "Float"} <= kinds:
+                    cands.append(q)
+        if len(cands) == 1:
+            pn = cands[0]
     if pn in prog.bodies:
         nt = ev.summary(pn)
         ok = False
